@@ -228,7 +228,13 @@ def make_function(init):
             self._evaluationsUntilAdaptiveUpdate = int(init["threshold"])
 
         def _functionImplementation(self, x):
-            return f_exact(init, np.asanyarray(x, dtype=float))
+            xa = np.asanyarray(x, dtype=float)
+            if xa.size == 0 and init.get("empty_like_freeenergy"):
+                # what WallGo.FreeEnergy._functionImplementation does for an empty temperature array (it minimises at
+                # "no temperature" and returns one row): nothing in the documentation obliges an implementation to
+                # return an empty array when there is nothing to evaluate
+                return f_exact(init, np.zeros(1))
+            return f_exact(init, xa)
 
     return GenFunction()
 
@@ -1488,6 +1494,8 @@ def st_init(draw):
         "threshold": draw(st.integers(5, 20)),
         "npoints0": draw(st.sampled_from([4, 5, 8, 10, 20, 40])),
     }
+    if R > 1 and draw(st.integers(0, 3)) == 0:
+        init["empty_like_freeenergy"] = True
     if R == 1 and nan_below is not None and AVOID["r1_nan_drop"]:
         init["nan_below"] = None
         init["avoided"] = ["D2-r1-nan-drop"]
